@@ -296,7 +296,7 @@ def run_instance(job):
                 res["assumed_real"] = True
             # differential check against CPython on paths that returned normally with all asserts discharged
             diff = None
-            if outcome == ("return", None) and res["diff_checked"] < cfgt["diff_paths"] and all(v["status"] != "refuted" for v in vcs):
+            if outcome == ("return", None) and "havoc" not in path.notes and res["diff_checked"] < cfgt["diff_paths"] and all(v["status"] != "refuted" for v in vcs):
                 if path.check(timeout_ms=cfgt["goal_timeout_ms"]) == z3.sat:
                     try:
                         cargs = concretize()
